@@ -6,6 +6,7 @@ import SlotVerif.Driver.GroupDrv
 import SlotVerif.Driver.EgDrv
 import SlotVerif.Driver.ProgDrv
 import SlotVerif.Driver.SnapDrv
+import SlotVerif.Driver.EvDrv
 /-! `svdriver`: reads one case per line `<suite> <body>`, prints one answer line per case. -/
 open SV.Drv
 
@@ -23,6 +24,8 @@ def dispatch (line : String) : String :=
     | "eg" => egRun body
     | "prog" => progRun body
     | "snap" => snapRun body
+    | "ev" => evRun body
+    | "rules" => rulesRun body
     | _ => "bad-suite"
   | [] => "bad-line"
 
